@@ -177,7 +177,12 @@ func term(in Input, outs []Outcome, sig string) string {
 		}
 		return "WCrash"
 	})
-	return lib.App("mk_case", lib.App("C17_Check.mk_case", lib.ListOf(t.names, lib.Str), steps, z(skip), obs), z(classCode[sig]))
+	var gets []Fire
+	if len(outs) == len(in.Steps) && len(outs) > 0 {
+		gets = outs[len(outs)-1].Gets
+	}
+	gs := lib.ListOf(gets, func(x Fire) string { return lib.Pair(of(x.Name), lib.Z(int64(x.Hid))) })
+	return lib.App("mk_case", lib.App("C17_Check.mk_case", lib.ListOf(t.names, lib.Str), steps, z(skip), obs), z(classCode[sig]), gs)
 }
 
 func shapeOf(in Input) string {
